@@ -21,7 +21,7 @@
    It holds for every method except miner_start, aqua_getWork and testing_getBlockTemplate,
    which start the miner and thereby (on a clique chain only) block sealing through the
    keystore entry point SignHashAllowed — and reach no other entry point. *)
-From AQ Require Import Lib.Bytes Rpc.Registry Generated.GenApis Rpc.RpcModel Rpc.RpcProofs.
+From AQ Require Import Lib.Bytes Rpc.Registry Rpc.Dispatch Generated.GenApis Rpc.RpcModel Rpc.RpcProofs.
 From Coq Require Strings.String.
 Import String.StringSyntax.
 Import ListNotations.
@@ -37,6 +37,29 @@ Theorem C18_default_env_no_signing_partial :
 Proof. exact default_env_no_signing_partial. Qed.
 Print Assumptions C18_default_env_no_signing_partial.
 
+(* request level (Rpc/Dispatch.v: json.go parseRequest / parseBatchRequest + server.go readRequest):
+   on a transport whose flag is off, whatever the other variables and the whitelists are, NO request —
+   plain, eth_-aliased, prefix-less, *_subscribe, or an element of a batch — resolves to a method that
+   can reach a keystore signing entry point, the three sealing methods excepted *)
+Theorem C18_no_optin_request_cannot_sign_partial :
+  forall (apis : list api) (f : flags) (t : transport) (c : config) (r : registry)
+         (batch : bool) (meth : bytes) (first_param : option bytes) (e : entry),
+  In apis gen_api_sets ->
+  flag_of f t = false ->
+  gen_exposed f t c apis = Some r ->
+  resolve r batch meth first_param = RCallback e \/ resolve r batch meth first_param = RSubscription e ->
+  e_signs e = false \/
+  In (e_ns e, e_wire e) [ (bs "miner", bs "start"); (bs "aqua", bs "getWork"); (bs "testing", bs "getBlockTemplate") ].
+Proof. exact no_optin_request_cannot_sign. Qed.
+Print Assumptions C18_no_optin_request_cannot_sign_partial.
+
+Theorem C18_resolve_only_registered :
+  forall (r : registry) (batch : bool) (meth : bytes) (first_param : option bytes) (e : entry),
+  resolve r batch meth first_param = RCallback e \/ resolve r batch meth first_param = RSubscription e ->
+  In e (r_entries r).
+Proof. exact resolve_only_registered. Qed.
+Print Assumptions C18_resolve_only_registered.
+
 (* the same for all 32 environments: only the transport's own flag matters *)
 Theorem C18_no_optin_signers_listed_partial :
   forall (apis : list api) (f : flags) (t : transport) (c : config) (r : registry) (e : entry),
@@ -47,7 +70,10 @@ Theorem C18_no_optin_signers_listed_partial :
 Proof. exact no_optin_signers_listed. Qed.
 Print Assumptions C18_no_optin_signers_listed_partial.
 
-(* the exceptions reach no keystore entry point other than SignHashAllowed (block sealing) *)
+(* the exceptions reach no keystore entry point other than SignHashAllowed, and none at all once
+   clique.Clique.Seal is cut out of the call graph: every signing path of theirs is block sealing
+   (targets_check: for (ns, wire) in unprotected_signers, targets = [SignHashAllowed] and
+   targets-without-Seal = []) *)
 Theorem C18_exceptions_only_seal :
   forallb targets_check gen_sign_targets = true.
 Proof. exact gen_exceptions_only_seal. Qed.
@@ -165,4 +191,14 @@ Example C18_optin_ipc_enables_ipc_only :
   serves gen_apis all_off HTTP cfg_personal n_personal_sasT = false /\
   serves_signing gen_apis_clique only_http HTTP gen_default_config n_aqua_sign = true /\
   serves gen_apis_clique only_http IPC gen_default_config n_aqua_sign = false.
+Proof. vm_compute. repeat split; reflexivity. Qed.
+
+(* eth_X is rewritten to aqua_X for single requests only (not inside a batch), and lands in the filtered registry *)
+Example C18_eth_alias_single_only :
+  is_callback_named (resolve_on gen_apis all_off HTTP gen_default_config false n_eth_getWork) n_aqua_getWork = true /\
+  resolve_on gen_apis all_off HTTP gen_default_config true n_eth_getWork = RNotFound /\
+  resolve_on gen_apis all_off IPC gen_default_config false n_eth_sign = RNotFound /\
+  is_callback_named (resolve_on gen_apis only_ipc_flags IPC gen_default_config false n_eth_sign) n_aqua_sign = true /\
+  resolve_on gen_apis only_ipc_flags IPC gen_default_config true n_eth_sign = RNotFound /\
+  resolve_on gen_apis only_ipc_flags HTTP gen_default_config false n_eth_sign = RNotFound.
 Proof. vm_compute. repeat split; reflexivity. Qed.
